@@ -611,15 +611,17 @@ class World:
                     res.add(c.name); bad_nodes.update(c.outs); changed = True
         return res
 
-    def hard_dependents(self, names):
-        """as dependents(), but only through explicit / implicit inputs that are not aliases"""
+    def hard_dependents(self, names, with_hdrs=False):
+        """as dependents(), but only through explicit / implicit inputs that are not aliases; with_hdrs: also through
+        depfile-discovered headers (they re-run the reader when they change, but a FAILED producer reaches the reader
+        only through the declared order-only edge)"""
         bad_nodes = set(o for c in self.cmds if c.name in names for o in c.outs)
         res = set()
         changed = True
         while changed:
             changed = False
             for c in self.cmds:
-                if c.name not in res and c.name not in names and any(i in bad_nodes for i in c.exp + c.imp):
+                if c.name not in res and c.name not in names and any(i in bad_nodes for i in c.exp + c.imp + (c.hdrs if with_hdrs else [])):
                     res.add(c.name); bad_nodes.update(c.outs); changed = True
         return res
 
@@ -908,7 +910,7 @@ def history(llb, d, seed, jobs, db, keep_going, with_ninja, want_clean):
     def alias_tainted():
         """commands that (transitively) have a phony alias among their explicit/implicit inputs: known to re-run every build"""
         direct = set(c.name for c in w.cmds if any(i in w.phony for i in c.exp + c.imp))
-        return direct | w.hard_dependents(direct)
+        return direct | w.hard_dependents(direct, with_hdrs=True)
 
     def check_success_state(tag, ran):
         reach = w.reachable()
